@@ -185,7 +185,7 @@ def cenc (ps : List Packet) : Out Bytes := do
   cval ps
   uenc ps
 
-def csize (ps : List Packet) : Nat := (ps.map Packet.marshalSize).foldl (· + ·) 0
+def csize (ps : List Packet) : Nat := (ps.map Packet.marshalSize).sum
 
 def cdec (b : Bytes) : Out (List Packet) := do
   let ps ← unmarshalLoop (b.length + 1) b
